@@ -223,7 +223,15 @@ func ruleBudgetFresh(c *Ctx, r *Report, prefix string) {
 				s.flag = false
 			}
 		case *ssa.Slice:
-			if x.X == fn.Params[1] || stripConv(x.X) == fn.Params[1] {
+			base := ssa.Value(x)
+			for i := 0; i < 6; i++ {
+				sl, isSl := stripConv(base).(*ssa.Slice)
+				if !isSl {
+					break
+				}
+				base = p.Resolve(sl.X)
+			}
+			if base == fn.Params[1] {
 				nSlice++
 				if s.flag && x.High != nil {
 					bad = "p is sliced with a budget computed before the last flushChunk (written() not re-evaluated)"
